@@ -310,7 +310,7 @@ def run(R, tier):
         rem_cmps = 0
         for c in cmps:
             a, bb_ = c[2], c[3]
-            if is_rem(a) and is_const(bb_):
+            if (is_rem(a) and is_const(bb_)) or (is_const(a) and is_rem(bb_)):
                 rem_cmps += 1
             elif (is_affine(a) and is_const(bb_)) or (is_const(a) and is_affine(bb_)):
                 guard_cmps += 1
